@@ -21,12 +21,12 @@ EXPLANATION = (
     "Does NOT decide: equality of the decision with the stated rule on all trees (values), that the new anchor lies on "
     "the served chain, promptness beyond the loop shape.")
 RULES = {
-    'R1': 'WRITERS(UtxoSet.next_height), EXPR of the update, position on the completion path',
+    'R1': 'WRITERS(UtxoSet.next_height), EXPR of the update, position on the completion path; CALLERS of the two ingestion entry points ⊆ the ingestion loop',
     'R2': 'WRITERS of the header store maps, CALLERS(insert/insert_block), EXPR of height and block arguments',
-    'R3': 'CALLERS of the discarding functions ⊆ pop; CALLERS(pop); pop sites on the Done arm',
+    'R3': 'CALLERS of the discarding functions ⊆ pop; CALLERS(pop); pop sites on the Done arm; pop_block returns only if pop yielded the ingested block',
     'R4': 'peek and pop both go through get_stable_child',
-    'R5': 'exact decision table (path-condition DNF) of get_stable_child',
-    'R6': 'loop shape: peek re-evaluated until None within one call',
+    'R5': 'exact decision table (path-condition DNF) of get_stable_child; documented depth-bound formula; threshold handed over without `as`; Depth arithmetic, depth recursions and difficulty provenance as atoms',
+    'R6': 'loop shape: peek re-evaluated until None within one call; heartbeat always runs the ingestion loop (no fast path)',
     'R7': 'no non-heartbeat entry point writes a field read by the stability decision',
 }
 ASSUMPTIONS = []
